@@ -391,9 +391,12 @@ def run_maximum_color_fonts(report, rng):
     from harness import c12
 
     data, info = c12.nanoemoji_font(rng, "glyf_colr_1", bitmaps=True)
-    inp = c12.load(data)
-    upem, asc, desc = inp["head"].unitsPerEm, inp["OS/2"].sTypoAscender, inp["OS/2"].sTypoDescender
-    for res in (None, 64, 96):
+    nd_data, nd_info = c12.notdef_font(rng, "glyf_colr_1")  # coloured .notdef: two runs of colour glyph ids, two strikes
+    for res in (None, 64, 96, "notdef"):
+        if res == "notdef":
+            data, info, res = nd_data, nd_info, None
+        inp = c12.load(data)
+        upem, asc, desc = inp["head"].unitsPerEm, inp["OS/2"].sTypoAscender, inp["OS/2"].sTypoDescender
         flags = ["--bitmaps", "--keep_glyph_names"] + (["--bitmap_resolution", str(res)] if res else [])
         case = dict(kind="e2e", built_by="python -m nanoemoji.maximum_color " + " ".join(flags), input=info)
         rc, log, out = c12.run_maximum_color(data, flags)
@@ -408,6 +411,21 @@ def run_maximum_color_fonts(report, rng):
         font = c12.load(out)
         want_h = res or 128
         probs = []
+        # every colour glyph of the input has exactly one image per strike size, under its own glyph id
+        colour = set().union(*c12.colour_glyph_names(inp).values())
+        seen = {}
+        for st_, sd in zip(font["CBLC"].strikes, font["CBDT"].strikeData):
+            for g in sd:
+                seen[(st_.bitmapSizeTable.ppemX, g)] = seen.get((st_.bitmapSizeTable.ppemX, g), 0) + 1
+            b_ = st_.bitmapSizeTable
+            gids_ = sorted(font.getGlyphID(g) for ist in st_.indexSubTables for g in ist.names)
+            if gids_ and (b_.startGlyphIndex, b_.endGlyphIndex) != (gids_[0], gids_[-1]):
+                probs.append(f"strike says glyph ids {b_.startGlyphIndex}..{b_.endGlyphIndex}, its index subtables hold {gids_}")
+        ppems = {k[0] for k in seen}
+        for g in sorted(colour):
+            for pp in ppems:
+                if seen.get((pp, g), 0) != 1:
+                    probs.append(f"colour glyph {g} has {seen.get((pp, g), 0)} images at ppem {pp}")
         for st_, sd in zip(font["CBLC"].strikes, font["CBDT"].strikeData):
             ppem = st_.bitmapSizeTable.ppemX
             for g, rec in sd.items():
